@@ -5,7 +5,7 @@
    Spec: Spec/Place.v ([Feasible], [wf_problem] = the documented domain, [consistent]). *)
 From Coq Require Import ZArith List Bool.
 Require Import Rig.Model.Base Rig.Model.Place Rig.Spec.Place Rig.Proofs.Place Rig.Proofs.PlaceCore
-        Rig.Proofs.PlaceMerge Rig.Proofs.PlaceSeq Rig.Proofs.PlaceComplete Rig.Proofs.PlaceSA Rig.Proofs.PlaceErrors Rig.Proofs.PlaceHilbert.
+        Rig.Proofs.PlaceMerge Rig.Proofs.PlaceSeq Rig.Proofs.PlaceComplete Rig.Proofs.PlaceSA Rig.Proofs.PlaceErrors Rig.Proofs.PlaceHilbert Rig.Proofs.PlaceEntry.
 Import ListNotations.
 Open Scope Z_scope.
 
@@ -168,6 +168,61 @@ Theorem C02_sa_python_kernel_feasible :
     sa_steps (ss_vr s0) (map fst (ss_fixed s0)) (sa_init_state s0) draws = Ok s ->
     exists pl, finalise (rev (ss_subs s0)) (st_pl s) = Ok pl /\ Feasible vr m cs pl.
 Proof. exact sa_python_kernel_feasible. Qed.
+
+(* The class Machine as the placer models see it.  Its membership test is regenerated from machine.py on every run
+   (Generated/GenPlaceShape.v, gen_machine_contains; Model/Place.v defines `live` through it) and the bodies of
+   __getitem__, __setitem__, __iter__, copy, __init__ and the class's method inventory are shape-checked, fail closed. *)
+Theorem C02_machine_contains_iff :
+  forall m x y, live m (x, y) = true <-> 0 <= x < pm_width m /\ 0 <= y < pm_height m /\ ~ In (x, y) (pm_dead m).
+Proof. exact machine_contains_iff. Qed.
+
+Theorem C02_machine_dead_outside_irrelevant :
+  forall m extra,
+    (forall c, In c extra -> ~ (0 <= fst c < pm_width m /\ 0 <= snd c < pm_height m)) ->
+    forall c, live {| pm_width := pm_width m; pm_height := pm_height m; pm_res := pm_res m; pm_exc := pm_exc m;
+                      pm_dead := pm_dead m ++ extra |} c = live m c.
+Proof. exact machine_dead_outside_irrelevant. Qed.
+
+Theorem C02_machine_setitem_getitem :
+  forall m c r m', mset m c r = Some m' ->
+    mget m' c = Some r /\ (forall c', c' <> c -> mget m' c' = mget m c') /\ (forall c', live m' c' = live m c')
+    /\ live m c = true.
+Proof. exact machine_setitem_getitem. Qed.
+
+Theorem C02_machine_iter :
+  forall m, NoDup (raster m) /\ forall c, In c (raster m) <-> live m c = true.
+Proof. exact machine_iter. Qed.
+
+(* The other entry points -- breadth_first.place, hilbert.place, rcm.place forward to sequential.place (shape-checked
+   from the source on every run) -- as functions of the model, with the three clauses as corollaries. *)
+Theorem C02_entry_points_sound :
+  forall vr m cs, wf_problem vr m cs -> consistent cs ->
+    (forall vo co pl, (forall v, In v (map fst vr) -> In v vo) -> bf_place vr m cs vo co = Ok pl -> Feasible vr m cs pl)
+    /\ (forall vo pl, (forall o, vo = Some o -> forall v, In v (map fst vr) -> In v o) ->
+                      hilbert_place vr m cs vo = Ok pl -> Feasible vr m cs pl)
+    /\ (forall vo co pl, (forall v, In v (map fst vr) -> In v vo) -> rcm_place vr m cs vo co = Ok pl -> Feasible vr m cs pl).
+Proof. exact entry_points_sound. Qed.
+
+Theorem C02_entry_points_complete :
+  forall vr m cs r0, wf_problem vr m cs -> unit_premise vr m cs r0 ->
+    (forall vo co, vertex_order_ok vr vo -> (forall o, co = Some o -> chip_order_ok m o) ->
+                   exists pl, bf_place vr m cs vo co = Ok pl)
+    /\ (forall vo, (forall o, vo = Some o -> vertex_order_ok vr o) -> exists pl, hilbert_place vr m cs vo = Ok pl)
+    /\ (forall vo co, vertex_order_ok vr vo -> chip_order_ok m co -> exists pl, rcm_place vr m cs vo co = Ok pl).
+Proof. exact entry_points_complete. Qed.
+
+Theorem C02_entry_points_documented_errors :
+  forall vr m cs, wf_problem vr m cs -> consistent cs ->
+    (forall vo co, NoDup vo -> vertex_order_ok vr vo -> documented_outcome (bf_place vr m cs vo co))
+    /\ (forall vo, (forall o, vo = Some o -> NoDup o /\ vertex_order_ok vr o) -> documented_outcome (hilbert_place vr m cs vo))
+    /\ (forall vo co, NoDup vo -> vertex_order_ok vr vo -> documented_outcome (rcm_place vr m cs vo co)).
+Proof. exact entry_points_documented_errors. Qed.
+
+(* V for large placements: a one-pass checker (chip loads accumulated once), sound like check_placement; evaluated in
+   Coq on the real outputs for the large cases (34x30 machine, 1200-vertex chain). *)
+Theorem C02_check_placement_fast_sound :
+  forall vr m cs pl, check_placement_fast vr m cs pl = true -> Feasible vr m cs pl.
+Proof. exact check_placement_fast_sound. Qed.
 
 (* Non-vacuity: a problem with a same-chip group, a location constraint on a member of the group, a global
    reservation and a resource exception meets the hypotheses, and both placers succeed on it. *)
